@@ -19,7 +19,7 @@ import (
 // NopLogger satisfies logger.Logger.
 type NopLogger struct{}
 
-func (NopLogger) Sync() error           { return nil }
+func (NopLogger) Sync() error          { return nil }
 func (NopLogger) Debug(string, ...any) {}
 
 type TaskRes struct {
@@ -37,7 +37,9 @@ type RunOut struct {
 	Log      []string  `json:"log,omitempty"` // lines appended to $VLOG by task commands
 }
 
-func (r RunOut) Failed() bool { return r.ParseErr != "" || r.LoadErr != "" || r.RunErr != "" || r.Panic != "" }
+func (r RunOut) Failed() bool {
+	return r.ParseErr != "" || r.LoadErr != "" || r.RunErr != "" || r.Panic != ""
+}
 func (r RunOut) ErrText() string {
 	return r.ParseErr + r.LoadErr + r.RunErr + r.Panic
 }
